@@ -1025,6 +1025,8 @@ const PAIR_INPUTS: &[&str] = &[
     // look-alikes: a character of the Basic Multilingual Plane and one of another plane with the same low 16 bits
     // but another category (dash / private use, ideographic space / hieroglyph, fullwidth mark / unassigned), where
     // the category decides how a single-word name ends
+    // mixed numbers and fractions whose tokens glue to the same text
+    "@milk{1 1/2%cup} #p{2 1/4}", "@milk{11/2%cup} #p{21/4}", "@a{0 1/2} ~{1 1/2%min}", "@a{01/2} ~{11/2%min}",
     "Add @salt— now", "Add @salt\u{f2014} now", "@x\u{3000}y{} #pan\u{3000}big", "@x\u{13000}y{} #pan\u{13000}big", "@name！ok ~t！", "@name\u{1ff01}ok ~t\u{1ff01}", "#pan… @a…b{}", "#pan\u{f2026} @a\u{f2026}b{}",
 ];
 
